@@ -177,4 +177,8 @@ RULES = [
     ("C19.1", C19_1, ["default"]),
     ("C19.2", C19_2, ["default"]),
     ("C19.3", C19_3_4, ["default"]),
+    # "nor leaves the pool unable to serve subsequent requests": expiry drops the inner future, i.e. the Checkout; its drop must
+    # release the in-flight marker (continue or cancel the attempt) on every path, and never skip that under lock contention
+    ("P10r", pool2.P10_aspects("released"), ["default"]),
+    ("P16b", pool2.no_try_lock, ["default"]),
 ]
